@@ -144,7 +144,12 @@ func (listener *tcpLineListener) runConnection(connLogger logger.Logger, conn *n
 	connLogger.Info("started")
 
 	recvChan := listener.receiver.NewSink(conn.RemoteAddr().String(), clientNumber)
-	defer recvChan.Close()
+	recvChanClosed := false
+	defer func() {
+		if !recvChanClosed {
+			recvChan.Close()
+		}
+	}()
 
 	connAborter := listener.launchConnectionCloser(connLogger, conn)
 
@@ -187,12 +192,19 @@ func (listener *tcpLineListener) runConnection(connLogger logger.Logger, conn *n
 			if !util.IsNetworkClosed(readErr) {
 				connLogger.Warn("read() error: ", readErr)
 			}
+			// close the sink before the socket: the client number (file descriptor) can be reused by a new
+			// connection as soon as the socket is closed
+			recvChan.Flush()
+			recvChan.Close()
+			recvChanClosed = true
 			connAborter.Signal()
 		}
 		break
 	}
 
-	recvChan.Flush()
+	if !recvChanClosed {
+		recvChan.Flush()
+	}
 	connLogger.Info("ended")
 }
 
